@@ -190,8 +190,24 @@ def _scenario(args):
         shutil.copytree(tdir, d, symlinks=True)
         path = os.path.join(d, "coll")
         shared = storesys.open_store(kind, path) if mode == "threads" else None
-        stores = [shared or storesys.open_store(kind, path) for _ in ops]
-        bodies = [(lambda st=st, o=o: do_op(st, OPS[o], etags)) for st, o in zip(stores, ops)]
+        if mode == "processes-late-open":
+            # every writer is a worker process that meets the collection for the first time with this request: the store is
+            # opened the way the web layer opens it (uncached), INSIDE the scheduled operation, after the first writer's store
+            def late(o, first):
+                def body():
+                    if first:
+                        st = storesys.open_store(kind, path)
+                    else:
+                        import xandikos.web as web
+
+                        opener = getattr(web.open_store_from_path, "__wrapped__", web.open_store_from_path)
+                        st = opener(path)
+                    return do_op(st, OPS[o], etags)
+                return body
+            bodies = [late(o, i == 0) for i, o in enumerate(ops)]
+        else:
+            stores = [shared or storesys.open_store(kind, path) for _ in ops]
+            bodies = [(lambda st=st, o=o: do_op(st, OPS[o], etags)) for st, o in zip(stores, ops)]
         s = sched.Scheduler(path, prefix=prefix, line_points=line_points)
         x = s.run(bodies)
         x.dir = d
@@ -439,6 +455,9 @@ def run(tier, workers=None):
                 jobs.append((kind, "processes", ops, 1, 400))
         for ops in PAIRS[:6]:
             jobs.append(("tree", "threads", ops, 1, 400))
+        # a worker that opens the collection for the first time while another one is writing
+        for ops in (PAIRS[1], PAIRS[0], PAIRS[6]):
+            jobs.append(("tree", "processes-late-open", ops, 1, 400))
         # two preemptions for the scenarios the property names explicitly (same-ETag updates, different resources, same UID)
         for ops in (PAIRS[0], PAIRS[1], PAIRS[2]):
             jobs.remove(("tree", "processes", ops, 1, 400))
@@ -451,6 +470,8 @@ def run(tier, workers=None):
                 jobs.append((kind, "threads", ops, 2, 1500))
             for ops in TRIPLES:
                 jobs.append((kind, "processes", ops, 2, 1500))
+            for ops in PAIRS[:8]:
+                jobs.append((kind, "processes-late-open", ops, 2, 1500))
         for ops in PAIRS[:8]:
             jobs.append(("mem", "threads", ops, 2, 1500))
     ho = http_overlap_phase(rep, nw)
